@@ -1,3 +1,4 @@
+import RR.Gen.FileSinkStatus
 import RR.Proof.FileSink
 
 /-!
